@@ -186,9 +186,11 @@ def dotted_of(node: ast.AST) -> str | None:
 
 
 class SourceIndex:
-    def __init__(self, repo_root: str, package: str = "maze_dataset") -> None:
+    def __init__(self, repo_root: str, package: str = "maze_dataset", normalize: bool = True) -> None:
         self.repo_root = os.path.abspath(repo_root)
         self.package = package
+        self.normalize = normalize
+        self.normalization_log: dict[str, list[str]] = {}
         self.modules: dict[str, Module] = {}
         self.functions: dict[str, FuncInfo] = {}
         self.classes: dict[str, ClassInfo] = {}
@@ -226,6 +228,16 @@ class SourceIndex:
             tree = ast.parse(src, filename=path)
         except SyntaxError as e:
             raise AnalysisError(f"{rel} does not parse: {e}") from e
+        if self.normalize:
+            from sa.normalize import normalize_module
+
+            log: list[str] = []
+            try:
+                tree = normalize_module(tree, name, log)
+            except RecursionError:  # pragma: no cover
+                tree = ast.parse(src, filename=path)
+            if log:
+                self.normalization_log[rel] = log
         self.modules[name] = Module(
             name=name, path=path, relpath=rel, source=src, tree=tree, is_package=is_pkg
         )
